@@ -198,4 +198,6 @@ def stable_repr(key):
         return "[" + ",".join([stable_repr(x) for x in key]) + "]"
     if t is dict:
         return "<" + ",".join(sorted([stable_repr(k) + ":" + stable_repr(v) for k, v in key.items()])) + ">"
+    if t is int:
+        return hex(key)  # no int->str digit limit
     return repr(key)
